@@ -77,7 +77,7 @@ func TestVerif_C15(t *testing.T) {
 	r.SetRule("storage-level ledger simulator with every transaction class. Each step finalizes one batch (1..24 quick, up to 255 thorough) with a full key/value dump of the " +
 		"graph database before and after: (success) no key deleted, no existing key changed except asset totals, and through the public API every transaction has its finalization " +
 		"record, every materialized output exists, asset totals moved by exactly the batch's deposits+mints-withdrawals, the snapshot has its topology position, round and work " +
-		"record and exactly one new per-node uniqueness record per transaction; (failure) batches with one member that cannot finalize at a random position — missing body, output key owned by another transaction, conflicting asset data, a " +
+		"record and exactly one new per-node uniqueness record per transaction, and the write was a single database commit (Badger's commit version advanced by one); (failure) batches with one member that cannot finalize at a random position — missing body, output key owned by another transaction, conflicting asset data, a " +
 		"second pledge while one is pending — must leave the dump digest unchanged and the store usable; (overlap) snapshots of another chain that contain already finalized " +
 		"transactions must change no existing key. non-trivial = distinct snapshot writes by (mode, outcome, batch size)")
 	rng := r.Rand()
@@ -168,6 +168,11 @@ func TestVerif_C15(t *testing.T) {
 			}
 			okWrites++
 			r.Nontrivial(fmt.Sprintf("ok|%d", len(batch)))
+			r.Count(fmt.Sprintf("snapshot_writes_made_of_%d_database_commits", sim.LastWriteCommits), 1)
+			if sim.LastWriteCommits != 1 {
+				r.Violation("C15|success|snapshot-write-is-not-one-commit", fmt.Sprintf("a snapshot write was made of %d separate database commits: a stop or a reader between them sees a part of its effects", sim.LastWriteCommits),
+					map[string]any{"commits": sim.LastWriteCommits, "batch": len(batch)})
+			}
 			after := sim.Store.VerifDump()
 			deleted, changed, added := vC15Diff(before, after)
 			if len(deleted) > 0 {
